@@ -136,7 +136,9 @@ fn hostile_paths(rng: &mut Rng, claims: &Value) -> Vec<String> {
 fn hostile_selection(rng: &mut Rng, view: &Value) -> Map<String, Value> {
     fn mutate(rng: &mut Rng, v: &mut Value, depth: usize) {
         if rng.chance(1, 5) || depth > 8 {
-            *v = match rng.usize(10) {
+            *v = match rng.usize(12) {
+                10 => json!(*rng.pick(&["*", "all", "**", "$..*", "true", "?"])),
+                11 => json!([*rng.pick(&["*", "all"])]),
                 0 => json!({"unknown": true}),
                 1 => json!([true, true, true, true, true, true, true, true]),
                 2 => json!("string"),
@@ -478,7 +480,7 @@ fn gen_msg_c07(rng: &mut Rng, tier: Tier) -> msg::MsgScn {
         }
         let mut sel = Map::new();
         for n in names.iter().take(6) {
-            sel.insert(n.clone(), rng.pick(&[json!({"country": true}), json!({"x": {"y": true}}), json!([true]), json!([[true], {"a": true}]), json!(true), json!({})]).clone());
+            sel.insert(n.clone(), rng.pick(&[json!({"country": true}), json!({"x": {"y": true}}), json!([true]), json!([[true], {"a": true}]), json!(true), json!({}), json!("*"), json!("all"), json!(["*"]), json!({"*": true})]).clone());
         }
         s.pres.push(msg::PresSpec::Holder { cred: *ci, selection: sel, kb: None });
     }
